@@ -4,24 +4,29 @@ synchronous stand-in pool, observed from outside (wrapped `compute_batch_ranking
 logger, checkpoint file read at every batch boundary, `pairwise_ranks.tsv`) vs the Lean model `Stream.run` / `aggregate` /
 `diskTrace` / `finalTable`.  The per-batch triplets recorded from the implementation are what the model aggregates
 (scoring is C05's business).  A few cases additionally run the real CLI in a fresh process.
-Oracle: the property's clauses as Lean spec ops (`streamspec`, `prefixaggs`, `finalokrows`) on the implementation's outputs."""
+Oracle: the property's clauses as Lean spec ops (`streamspec`, `prefixaggs`, `finalokrows`) on the implementation's outputs.
+Additional family E2E (harness/corr_E2E.py, DESIGN §11.2): whole files through the real task vs the composed Lean model
+`Pipeline.rankFile` (parser, loop, pairs, orientation, MI scoring, median, sort); its theorems (Props/Pipeline.lean) are
+built and audited with this check (`EXTRA_PROPS`)."""
 from __future__ import annotations
 
 import random
 from concurrent.futures import ThreadPoolExecutor
 from fractions import Fraction
 
+import corr_E2E
 import stream_common as sc
 from vp_common import Atom, Ctx, line, run_driver
 
 PROP = 'C08'
+EXTRA_PROPS = ['Pipeline']          # Props/Pipeline.lean: built, audited and counted with C08's obligations
 RULE = ('CSV files generated from one PRNG: 3-4 columns (label anywhere, a unique row-id column), number of selected valid rows '
         'k*B + {-1,0,1,1023,1024,1025,1026} for B in [1030,2600] (tail rule can fire) and B in {1,2,5,50} (many batches), '
         'subsampling in {1,2,3,7} with unselected filler lines (valid or malformed), malformed selected rows (too few / too many '
         'fields, empty lines) at rates 0-40% and forced at the first/last/boundary positions, with and without trailing newline; '
         'both ranking modes; a few Constant-heuristic files; direct get_grouped_df cases with ties, negative and even/odd groups. '
         'Non-trivial = at least two processed batches or a fired tail rule, with at least one malformed selected row; '
-        'distinct = distinct (B, sub, validity pattern).')
+        'distinct = distinct (B, sub, validity pattern). ' + corr_E2E.RULE_E2E)
 ASSUMPTIONS = ['lines are abstract in the model: per line only "csv field count == header field count" (computed by the harness as '
                'comma count + 1, 0 for an empty line; generated fields contain no quotes) and an identifier; the parser itself is C16',
                'scores are the per-batch triplets recorded from the implementation (scoring is C05); every finite float is an exact rational; '
@@ -29,7 +34,7 @@ ASSUMPTIONS = ['lines are abstract in the model: per line only "csv field count 
                'pandas groupby sorts its keys (compared in order); sort_values is not stable: tie rows of pairwise_ranks.tsv are compared as multisets (Lean finalOkB)',
                'minibatch_size >= 1 and subsampling >= 1 (0 raises ZeroDivisionError / loops in the code; excluded by the property)',
                "heuristic 'Constant' writes no in-loop checkpoint by design (modelled, not flagged)",
-               'get_grouped_df / the model skip no NaN: cases whose recorded scores are not finite are counted and skipped']
+               'get_grouped_df / the model skip no NaN: cases whose recorded scores are not finite are counted and skipped'] + corr_E2E.ASSUMPTIONS_E2E
 SMALL_B = [1, 2, 5, 50]
 DELTAS = [-1, 0, 1, 1023, 1024, 1025, 1026]
 
@@ -448,6 +453,8 @@ def run(ctx: Ctx):
                                 f'in ascending score order: {rows[:5]}…', short(c))
     finally:
         ex.shutdown(wait=True)
+    # end-to-end family (drawn last, so that the cases above do not depend on it)
+    corr_E2E.evaluate_e2e(ctx, corr_E2E.corpus_e2e() + corr_E2E.gen_cases(ctx.rng, th))
 
 
 def search(ctx: Ctx):
@@ -455,11 +462,15 @@ def search(ctx: Ctx):
     sub.rng.seed(f'search:{ctx.seed}')
     evaluate(sub, [gen_case(sub.rng, True) for _ in range(250)], oracle_only=True)
     grouped_direct(sub, 1500, oracle_only=True)
+    corr_E2E.evaluate_e2e(sub, corr_E2E.corpus_e2e() + [corr_E2E.gen_e2e_case(sub.rng, True) for _ in range(60)], oracle_only=True)
     return sub.oracle_failures
 
 
 def replay(ctx: Ctx, payload):
     case = payload['case']
+    if isinstance(case, dict) and case.get('e2e'):
+        corr_E2E.evaluate_e2e(ctx, [case], do_shrink=False)
+        return
     if 'direct_rows' in case:
         from outrank import core_ranking as cr
         rows = [tuple(r) for r in case['direct_rows']]
